@@ -118,7 +118,18 @@ pub fn c19_variants(tier: &str, words: &[u32]) -> Vec<Variant> {
             srcs: vec![(id(B, 0), 0, true), (id(C, 0), 0, true), (id(A, 0), 0, false), (id(A, 2), 0, false)],
             own_addr_srcs: true,
             stale_dst_gens: vec![-1, 1],
-            kinds: vec![Kind::Gossip, Kind::Ping, Kind::Announce],
+            // relay requests whose third party is another identity of the own
+            // address: identities named in a header must not become members
+            kinds: vec![
+                Kind::Gossip,
+                Kind::Ping,
+                Kind::Announce,
+                Kind::PingReq(id(A, 0)),
+                Kind::IndirectPing(id(A, 0)),
+                Kind::IndirectPing(id(A, 2)),
+                Kind::IndirectAck(id(A, 0)),
+                Kind::FwdAck(0),
+            ],
             payload_kinds: vec![Kind::Gossip],
             payloads: vec![
                 vec![],
@@ -386,11 +397,15 @@ pub fn c10_variants(tier: &str, words: &[u32]) -> Vec<Variant> {
             // a renewed identity of an address already known at a higher
             // incarnation: the new record starts from what was told about it
             vec![mm(id(C, 1), 0, State::Alive)],
+            // ONE batch that first tells the instance its identity is Down and
+            // then goes on about that same (by then abandoned) identity
+            vec![mm(id(A, 1), 0, State::Down), mm(id(A, 1), 3, State::Suspect)],
+            vec![mm(id(A, 1), 0, State::Down), mm(id(A, 1), 0, State::Down)],
         ];
         // Down at a lower incarnation than the current one is still Down
         a.self_rel = vec![(-1, State::Suspect), (0, State::Suspect), (1, State::Suspect), (0, State::Alive), (0, State::Down), (-1, State::Down)];
         a.self_abs = vec![(u16::MAX - 1, State::Suspect), (u16::MAX, State::Suspect), (u16::MAX, State::Alive)];
-        a.applies = vec![(vec![al(id(C, 0))], true)];
+        a.applies = vec![(vec![al(id(C, 0))], true), (vec![mm(id(A, 1), 0, State::Down), mm(id(A, 1), 0, State::Suspect)], true)];
         a.api = vec![Ev::Leave, Ev::Reuse, Ev::Gossip];
         a.change_gens = vec![1];
         s.alpha = a;
@@ -438,7 +453,9 @@ pub fn c11_variants(tier: &str, words: &[u32]) -> Vec<Variant> {
                 // a much newer Alive about a (possibly Down) member
                 vec![mm(id(B, 0), 5, State::Alive)],
             ],
-            api: vec![],
+            // forget-timers carry no token: they are honoured in every
+            // connection state, also while the instance itself is defunct
+            api: vec![Ev::Leave, Ev::Reuse],
             change_gens: vec![1],
             redeliver_suspect_timers: true,
             ..Alpha::default()
